@@ -11,6 +11,7 @@ import (
 
 	auctiontypes "github.com/comdex-official/comdex/x/auction/types"
 	auctionsV2types "github.com/comdex-official/comdex/x/auctionsV2/types"
+	lendtypes "github.com/comdex-official/comdex/x/lend/types"
 	liqtypes "github.com/comdex-official/comdex/x/liquidation/types"
 	liqV2types "github.com/comdex-official/comdex/x/liquidationsV2/types"
 
@@ -63,6 +64,10 @@ func c10LendRun(t *testing.T, rec *ev.Rec, run int) {
 		msg := &liqV2types.MsgAppReserveFundsRequest{From: c.Accts[5].Addr.String(), AppId: e.u.App, AssetId: id, TokenQuantity: sdk.NewCoin(e.u.Assets[id].Denom, amt)}
 		res := c.Deliver(c.Accts[5], msg)
 		observe(&cdpEvent{Kind: "tx", Op: "reserve_fund", Signer: c.Accts[5], Msg: msg, Res: res, Desc: fmt.Sprintf("%s%s", amt, e.u.Assets[id].Denom)})
+	}
+	startPrice := map[uint64]uint64{}
+	for _, id := range e.u.Order {
+		startPrice[id], _ = e.u.Price(id)
 	}
 	steps := ev.Pick(3000, 20000)
 	for i := 0; i < steps && !e.panicked; i++ {
@@ -133,11 +138,7 @@ func c10LendRun(t *testing.T, rec *ev.Rec, run int) {
 			if res.OK() {
 				rec.Count("op_bid_market_v2_lend_ok", 1)
 			} else {
-				l := res.Log
-				if len(l) > 90 {
-					l = l[len(l)-90:]
-				}
-				rec.Count("lend_bid_rejected: "+l, 1)
+				rec.Count("lend_bid_rejected: "+c08LogClass(res.Log), 1)
 				if dbgLendBid != nil {
 					dbgLendBid(res.Log)
 				}
@@ -145,7 +146,13 @@ func c10LendRun(t *testing.T, rec *ev.Rec, run int) {
 			observe(&cdpEvent{Kind: "tx", Op: "bid_market_v2", Signer: bidder, Msg: msg, Res: res, Desc: fmt.Sprintf("auction=%d amt=%s rem=%s", a.AuctionId, amt, rem)})
 		}
 	}
-	c10LendGen1Phase(e, rec, ev.Pick(25, 120))
+	for id, p := range startPrice {
+		e.u.SetPrice(id, p, true)
+	}
+	observe(&cdpEvent{Kind: "env", Op: "price", Desc: "prices back at their start values"})
+	c.NextBlock(6 * time.Second)
+	observe(&cdpEvent{Kind: "block", Op: "next", Desc: fmt.Sprintf("h=%d", c.Header.Height)})
+	c10LendGen1Phase(e, rec, ev.Pick(30, 120))
 	rec.Floor("auctions_opened_gen1_lend", 3)
 	rec.Floor("bids_checked_gen1-lend", 5)
 	if run == 0 {
@@ -197,11 +204,22 @@ func c10LendGen1Phase(e *c08Env, rec *ev.Rec, rounds int) {
 		}
 	}
 	for round := 0; round < rounds && !e.panicked; round++ {
-		s := e.snap()
-		b, ok := m.pickBorrow(s, false)
-		if !ok {
-			e.force = []string{"same-pool", "inter-pool"}[round%2]
+		// a fresh position close to its bound every other round, so that the phase does not depend on what the
+		// long history before it has left
+		var b lendtypes.BorrowAsset
+		ok := false
+		if round%2 == 0 {
+			before := c.App.LendKeeper.GetUserBorrowIDCounter(c.Ctx())
+			e.force = []string{"same-pool", "inter-pool", "same-pool", "emode"}[(round/2)%4]
 			e.txStep()
+			if id := c.App.LendKeeper.GetUserBorrowIDCounter(c.Ctx()); id > before {
+				b, ok = c.App.LendKeeper.GetBorrow(c.Ctx(), id)
+			}
+		}
+		if !ok {
+			b, ok = m.pickBorrow(e.snap(), false)
+		}
+		if !ok {
 			continue
 		}
 		asset, old := m.moveToRatio(b, int64(1050+e.rnd.Intn(400)))
